@@ -299,7 +299,7 @@ def gc_children(ctx, r):
         if a is None:
             continue
         allocs = any(x["k"] == "Call" and q.show(x["f"]) == alloc for x in q.walk(a["body"]))
-        rec = tag == "String" or any(x["k"] == "MethodCall" and x["m"] == "deep_copy" for x in q.walk(a["body"]))
+        rec = tag == "String" or any(x["k"] == "MethodCall" and x["m"] == "deep_copy" for x in W(a["body"]))
         r.ob(allocs and rec, f"vm.rs:deep_copy:{tag}:not-a-deep-copy", VM, a["l"],
              f"deep_copy arm {tag}: must allocate a new {alloc.split('::')[0]} in the destination thread{'' if tag == 'String' else ' from recursively copied payload values'}", sample=f"deep_copy {tag}: new object, payload copied recursively")
     # every object allocated anywhere in deep_copy (fast paths and early returns included) is built from copies only
@@ -308,6 +308,12 @@ def gc_children(ctx, r):
             e = e["e"] if e["k"] in ("Ref", "Paren") else e["recv"]
         if e["k"] == "MethodCall" and e["m"] == "deep_copy":
             return True
+        if e["k"] in ("Call", "MethodCall") and isinstance(e.get("inl"), dict):
+            # a helper that builds the payload: its result must itself be built from copies only
+            hb = e["inl"]["body"]
+            tail = hb["stmts"][-1] if hb.get("k") == "Block" and hb.get("stmts") else None
+            if tail is not None and tail["k"] == "ExprStmt" and copy_derived(tail["e"], hb):
+                return True
         if e["k"] == "MethodCall" and e["m"] == "collect":
             # iterator chain ending in map(|x| x.deep_copy(..))
             c = e["recv"]
